@@ -37,14 +37,17 @@ func contractTags(fc *FuncContract) []string {
 
 func newExec(p *Prog, name string) *Exec {
 	e := &Exec{P: p, S: newScript(), name: name, notes: map[string]bool{}, unsup: map[string]bool{}, arrSort: map[string]string{},
-		callSeen: map[string]int{}, closures: map[string]closureInfo{}, usedLemmas: map[string]bool{}, measures: map[int]string{}, prov: map[string]string{}}
+		callSeen: map[string]int{}, closures: map[string]closureInfo{}, usedLemmas: map[string]bool{}, measures: map[int]string{}, prov: map[string]string{}, specCache: map[string]Val{}, siteVars: map[string]Val{}, opaqueSig: map[string]string{}, specCache2: map[string][]specEntry{}, ldCache: map[string]string{}}
 	e.S.DeclareFun("typeof", []string{"Int"}, "Int")
 	e.S.Assert(sEq(sx("typeof", "0"), "0"))
 	e.S.Declare("A0", "Int")
 	e.S.Assert(sx("<=", "0", "A0"))
+	e.S.Declare("LEN", "(Array Int Int)")
+	e.S.Assert(sEq(sx("select", "LEN", "0"), "0"))
 	for _, srt := range []string{"Int", "String", "Bool"} {
-		e.S.Declare("SEQ_"+srt, "(Array Int (Seq "+srt+"))")
-		e.S.Assert(sEq(sx("seq.len", sx("select", "SEQ_"+srt, "0")), "0"))
+		// the nil slice has no elements (normal form: the constant array)
+		e.S.Declare("SEQ_"+srt, "(Array Int (Array Int "+srt+"))")
+		e.S.Assert(sEq(sx("select", "SEQ_"+srt, "0"), constArr(srt)))
 	}
 	// pre-register every field array so that havocAll covers them
 	fs := p.fieldSorts()
@@ -52,7 +55,7 @@ func newExec(p *Prog, name string) *Exec {
 		e.arrSort[n] = fs[n]
 		e.allArr = append(e.allArr, arrInfo{n, fs[n]})
 	}
-	for _, n := range []string{"SEQ_Int", "SEQ_String", "SEQ_Bool", "BOX_Int", "BOX_Bool", "BOX_String", "BOX_Bytes_s", "BOX_Bytes_n",
+	for _, n := range []string{"SEQ_Int", "SEQ_String", "SEQ_Bool", "LEN", "BOX_Int", "BOX_Bool", "BOX_String", "BOX_Bytes_s", "BOX_Bytes_n",
 		"CELL_Int", "CELL_Bool", "CELL_String", "CELL_Bytes_s", "CELL_Bytes_n"} {
 		s := p.arrSortByName(n)
 		e.arrSort[n] = s
@@ -136,7 +139,7 @@ func flatten(v Val) []string {
 // verifyLemma produces the obligation for a non-trusted lemma.
 func verifyLemma(p *Prog, lm *Lemma) *Exec {
 	e := newExec(p, "lemma")
-	e.fc = &FuncContract{PkgPath: lm.PkgPath}
+	e.fc = &FuncContract{PkgPath: lm.PkgPath, Reveal: lm.Reveal}
 	st := e.initState()
 	var pk *types.Package
 	if sp := p.SPkgs[lm.PkgPath]; sp != nil {
